@@ -374,7 +374,9 @@ class TermExecutor(Executor):
             if h is not None and not any(h is x for x in self.cur_fn_stack) and self.inline_depth < 2 \
                     and sum(1 for _ in ast.walk(h)) <= 400 and not any(isinstance(x, (ast.Yield, ast.YieldFrom)) for x in ast.walk(h)):
                 decos = [ast.unparse(d) for d in h.decorator_list]
-                if all(d in ("staticmethod", "classmethod") for d in decos):
+                # names the helper stores to must not collide with the caller's loop-stable names: `len(<unknown named k>)` is one
+                # constant per stable name, and an unknown local of the helper called the same would share it
+                if all(d in ("staticmethod", "classmethod") for d in decos) and not (assigned(h.body) & set(self.stable_names)):
                     outs = []
                     for (s2, args) in self.ev_list(n.args, st):
                         self_val = VUnk("self") if (is_method and "staticmethod" not in decos) else None
